@@ -67,7 +67,7 @@ func main() {
 		h.model = m
 		defer m.Close()
 	}
-	run.SetRule("served: every multiset of ≤3 (thorough ≤4) edges over the timestamps {t, t+1ns, t+1s(, t+2s)} with unique ids in seeded order × atOrAfterTime,beforeTime ∈ {absent} ∪ 4 instants × after,before ∈ {absent} ∪ cursors(D) ∪ 4 foreign cursors (an edge's instant with another id, before everything, an instant no edge carries — inside and outside the window) × first|last ∈ 0..|D|+1, getter tie-break ∈ {id, reverse-id, seeded}, delivery ∈ {sync, promise, mixed} and empty-range representation ∈ {empty slice, typed nil, untyped nil} seeded; walks for every page size × time window; TimeBasedRangeQueries directly over cursors × windows × limits; random larger data sets. distinct = distinct canonical case; non-trivial = the data set has a repeated timestamp and TimeRef's page is a non-empty proper part of it (served), the walk needs more than one page, a cursor is given (queries)")
+	run.SetRule("served: every multiset of ≤3 (thorough ≤4) edges over the timestamps {t, t+1ns, t+1s(, t+2s)} with unique ids in seeded order × atOrAfterTime,beforeTime ∈ {absent} ∪ 4 instants × after,before ∈ {absent} ∪ cursors(D) ∪ 4 foreign cursors (an edge's instant with another id, before everything, an instant no edge carries — inside and outside the window) × first|last ∈ 0..|D|+1, getter tie-break ∈ {id, reverse-id, seeded}, delivery ∈ {sync, promise, mixed} and empty-range representation ∈ {empty slice, typed nil, untyped nil} seeded; walks for every page size × time window; the same over ≤2 edges on instants at both ends of the int64 nanosecond range; getter replies as fresh slices or (1 in 4) as windows of its own long-lived []any store, followed by a request for everything on that store; TimeBasedRangeQueries directly over cursors × windows × limits; random larger data sets. distinct = distinct canonical case; non-trivial = the data set has a repeated timestamp and TimeRef's page is a non-empty proper part of it (served), the walk needs more than one page, a cursor is given (queries)")
 
 	if run.Replay != "" {
 		var c Case
@@ -138,62 +138,76 @@ func main() {
 		}
 	}
 
+	replyAs := func(r *hx.Rand) string {
+		if r.Chance(1, 4) {
+			return "store-window"
+		}
+		return ""
+	}
 	// ---- served, exhaustive over data sets × arguments
-	for k := 0; k <= maxEdges; k++ {
-		for _, ms := range multisets(len(times), k) {
-			idp := append([]string{}, idPool...)
-			hx.Shuffle(R, idp)
-			var D []TEdge
-			for i, ti := range ms {
-				D = append(D, TEdge{times[ti], idp[i]})
-			}
-			hx.Shuffle(R, D)
-			var curs []*CurArg
-			curs = append(curs, nil)
-			for _, e := range D {
-				curs = append(curs, &CurArg{Kind: "emitted", T: e.T, Id: e.Id, S: emit(e)})
-			}
-			// foreign cursors: an edge's instant with a smaller / larger id, before everything, and an
-			// instant that no edge of any data set carries (a stale or client-made cursor): its
-			// exact-timestamp query is answered with an empty range
-			for _, e := range []TEdge{{times[0], ""}, {times[1], "zz"}, {lo, "m"}, {times[1] + 5e8, "g"}} {
-				curs = append(curs, &CurArg{Kind: "emitted", T: e.T, Id: e.Id, S: emit(e)})
-			}
-			for _, t1 := range atOrAfters {
-				for _, t2 := range beforeTs {
-					for _, a := range curs {
-						for _, b := range curs {
-							for n := 0; n <= k+1; n++ {
-								for _, fwd := range []bool{true, false} {
-									r := TReq{After: a, Before: b, AtOrAfter: t1, BeforeT: t2, SelPI: R.Chance(3, 4), SelTC: R.Chance(1, 4), Vars: R.Chance(1, 3)}
-									if fwd {
-										r.First = ip(n)
-									} else {
-										r.Last = ip(n)
+	exhaust := func(times []int64, maxEdges int, atOrAfters, beforeTs []*int64, lo int64) {
+		for k := 0; k <= maxEdges; k++ {
+			for _, ms := range multisets(len(times), k) {
+				idp := append([]string{}, idPool...)
+				hx.Shuffle(R, idp)
+				var D []TEdge
+				for i, ti := range ms {
+					D = append(D, TEdge{times[ti], idp[i]})
+				}
+				hx.Shuffle(R, D)
+				var curs []*CurArg
+				curs = append(curs, nil)
+				for _, e := range D {
+					curs = append(curs, &CurArg{Kind: "emitted", T: e.T, Id: e.Id, S: emit(e)})
+				}
+				// foreign cursors: an edge's instant with a smaller / larger id, before everything, and an
+				// instant that no edge of any data set carries (a stale or client-made cursor): its
+				// exact-timestamp query is answered with an empty range
+				for _, e := range []TEdge{{times[0], ""}, {times[1], "zz"}, {lo, "m"}, {times[1] + 5e8, "g"}} {
+					curs = append(curs, &CurArg{Kind: "emitted", T: e.T, Id: e.Id, S: emit(e)})
+				}
+				for _, t1 := range atOrAfters {
+					for _, t2 := range beforeTs {
+						for _, a := range curs {
+							for _, b := range curs {
+								for n := 0; n <= k+1; n++ {
+									for _, fwd := range []bool{true, false} {
+										r := TReq{After: a, Before: b, AtOrAfter: t1, BeforeT: t2, SelPI: R.Chance(3, 4), SelTC: R.Chance(1, 4), Vars: R.Chance(1, 3)}
+										if fwd {
+											r.First = ip(n)
+										} else {
+											r.Last = ip(n)
+										}
+										tie := hx.Pick(R, ties)
+										if R.Bool() {
+											tie = "id"
+										}
+										h.add(Case{Kind: "served", D: D, Tie: tie, Async: hx.Pick(R, asyncs), Empty: hx.Pick(R, emptyNames), ReplyAs: replyAs(R), Seed: R.Uint64() >> 1, Req: &r})
 									}
-									tie := hx.Pick(R, ties)
-									if R.Bool() {
-										tie = "id"
-									}
-									h.add(Case{Kind: "served", D: D, Tie: tie, Async: hx.Pick(R, asyncs), Empty: hx.Pick(R, emptyNames), Seed: R.Uint64() >> 1, Req: &r})
 								}
 							}
 						}
-					}
-					// walks for every page size under this time window
-					for n := 1; n <= k+1; n++ {
-						for _, fwd := range []bool{true, false} {
-							tie := hx.Pick(R, ties)
-							if R.Bool() {
-								tie = "id"
+						// walks for every page size under this time window
+						for n := 1; n <= k+1; n++ {
+							for _, fwd := range []bool{true, false} {
+								tie := hx.Pick(R, ties)
+								if R.Bool() {
+									tie = "id"
+								}
+								h.check(Case{Kind: "walk", D: D, Tie: tie, Async: hx.Pick(R, asyncs), Empty: hx.Pick(R, emptyNames), ReplyAs: replyAs(R), Seed: R.Uint64() >> 1, Walk: &TWalk{Forward: fwd, N: n, AtOrAfter: t1, BeforeT: t2}})
 							}
-							h.check(Case{Kind: "walk", D: D, Tie: tie, Async: hx.Pick(R, asyncs), Empty: hx.Pick(R, emptyNames), Seed: R.Uint64() >> 1, Walk: &TWalk{Forward: fwd, N: n, AtOrAfter: t1, BeforeT: t2}})
 						}
 					}
 				}
 			}
 		}
 	}
+	exhaust(times, maxEdges, atOrAfters, beforeTs, lo)
+	// the same over instants at both ends of the int64 nanosecond range (years 1677 and 2262: more
+	// than 2^63 ns apart, so a difference of two cursor times does not fit an int64) around a
+	// present-day one
+	farLo, farHi := int64(-1<<63)+1e12, int64(1<<63-1)-1e12
+	exhaust([]int64{farLo, base + 1e9, farHi}, 2, []*int64{nil, i64(base)}, []*int64{nil, i64(base + 2e9)}, farLo-1e9)
 	run.SetExhaustive(true)
 
 	// ---- count errors and arbitrary cursor strings (the struct-typed cursor must never crash)
@@ -214,12 +228,12 @@ func main() {
 			} else {
 				r.Last, r.Before = ip(2), &CurArg{Kind: "raw", S: s}
 			}
-			h.add(Case{Kind: "served", D: D3, Tie: "id", Async: hx.Pick(R, asyncs), Empty: hx.Pick(R, emptyNames), Seed: R.Uint64() >> 1, Req: &r})
+			h.add(Case{Kind: "served", D: D3, Tie: "id", Async: hx.Pick(R, asyncs), Empty: hx.Pick(R, emptyNames), ReplyAs: replyAs(R), Seed: R.Uint64() >> 1, Req: &r})
 		}
 	}
 	for _, fl := range [][2]*int{{nil, nil}, {ip(-1), nil}, {nil, ip(-2)}, {ip(1), ip(1)}, {ip(0), ip(0)}} {
 		r := TReq{First: fl[0], Last: fl[1], SelPI: true, AtOrAfter: i64(times[0])}
-		h.add(Case{Kind: "served", D: D3, Tie: "id", Async: hx.Pick(R, asyncs), Empty: hx.Pick(R, emptyNames), Seed: R.Uint64() >> 1, Req: &r})
+		h.add(Case{Kind: "served", D: D3, Tie: "id", Async: hx.Pick(R, asyncs), Empty: hx.Pick(R, emptyNames), ReplyAs: replyAs(R), Seed: R.Uint64() >> 1, Req: &r})
 	}
 
 	// ---- random larger data sets: many edges per timestamp, requests and walks
@@ -228,7 +242,9 @@ func main() {
 		nT := r.Range(1, 5)
 		ts := make([]int64, nT)
 		for j := range ts {
-			switch r.Intn(3) {
+			switch r.Intn(4) {
+			case 3:
+				ts[j] = hx.Pick(r, []int64{int64(-1<<63) + 1e12, -8e18, base, 8e18, int64(1<<63-1) - 1e12}) + int64(r.Range(-2, 2))
 			case 0:
 				ts[j] = base + int64(r.Range(0, 4))
 			case 1:
@@ -259,7 +275,7 @@ func main() {
 		}
 		async := hx.Pick(r, asyncs)
 		if r.Chance(1, 4) {
-			h.check(Case{Kind: "walk", D: D, Tie: tie, Async: async, Empty: hx.Pick(r, emptyNames), Seed: r.Uint64() >> 1, Walk: &TWalk{Forward: r.Bool(), N: r.Range(1, n/2+1), AtOrAfter: pickT(), BeforeT: pickT()}})
+			h.check(Case{Kind: "walk", D: D, Tie: tie, Async: async, Empty: hx.Pick(r, emptyNames), ReplyAs: replyAs(r), Seed: r.Uint64() >> 1, Walk: &TWalk{Forward: r.Bool(), N: r.Range(1, n/2+1), AtOrAfter: pickT(), BeforeT: pickT()}})
 			continue
 		}
 		pickCur := func() *CurArg {
@@ -283,7 +299,7 @@ func main() {
 		} else {
 			rq.Last = ip(r.Range(0, n+1))
 		}
-		c := Case{Kind: "served", D: D, Tie: tie, Async: async, Empty: hx.Pick(r, emptyNames), Seed: r.Uint64() >> 1, Req: &rq}
+		c := Case{Kind: "served", D: D, Tie: tie, Async: async, Empty: hx.Pick(r, emptyNames), ReplyAs: replyAs(r), Seed: r.Uint64() >> 1, Req: &rq}
 		h.add(c)
 		if i < 3 {
 			run.Sample(c)
